@@ -67,6 +67,14 @@ class Module:
                 g[st.name] = ("class", st)
             elif isinstance(st, ast.Assign) and len(st.targets) == 1 and isinstance(st.targets[0], ast.Name):
                 g[st.targets[0].id] = ("assign", st.value)
+            elif isinstance(st, ast.Try):  # try: import x as y / except ImportError
+                for s2 in st.body:
+                    if isinstance(s2, ast.Import):
+                        for a in s2.names:
+                            g.setdefault(a.asname or a.name.split(".")[0], ("import", a.name if a.asname else a.name.split(".")[0]))
+                    elif isinstance(s2, ast.ImportFrom):
+                        for a in s2.names:
+                            g.setdefault(a.asname or a.name, ("from", s2.module, a.name))
             elif isinstance(st, ast.If):  # TYPE_CHECKING imports etc.
                 for s2 in st.body:
                     if isinstance(s2, ast.ImportFrom):
